@@ -73,7 +73,9 @@ JudgeC08(e) ==
          ELSE LET i == CHOOSE i \in bad : \A j \in bad : i <= j IN
               "C08:inspect-" \o e.inspect[i][1] \o "-raised:" \o e.inspect[i][2]
 
-JudgeGate(e) == IF e.out = ModeGate(e.api, e.m) THEN "ok" ELSE "EXT:mode-gate:" \o e.api \o ":" \o e.out
+JudgeGate(e) ==
+    IF e.api = "datastream" THEN (IF e.out = WrapRule(<<e.kind[1] = 1, e.kind[2] = 1, e.kind[3] = 1>>) THEN "ok" ELSE "EXT:wrap-rule:" \o e.out)
+    ELSE IF e.out = ModeGate(e.api, e.m) THEN "ok" ELSE "EXT:mode-gate:" \o e.api \o ":" \o e.out
 
 Judge(e) == CASE e.prop = "EXT-gate" -> JudgeGate(e)
               [] e.prop = "C01" -> JudgeC01(e)
